@@ -4,8 +4,10 @@ From Cao Require Export CheckUtil CardAst Bytecode Compiler Wellformed.
 From Cao Require Import Bits CompilerGen.
 Local Open Scope N_scope.
 
+(* [disasm] = the instruction starts listed by CaoCompiledProgram::disassemble_string, when the harness
+   could run it (no NativeFunctionPointer in the program, see Bytecode.span_table) *)
 Inductive c10case :=
-| C10Case (m : module) (recursion_limit : N) (debug : bool) (obs : cresult).
+| C10Case (m : module) (recursion_limit : N) (debug : bool) (obs : cresult) (disasm : option (list N)).
 Definition mkcase := C10Case.
 
 Definition str_list_eqb : list str -> list str -> bool := list_eqb str_eqb.
@@ -59,7 +61,7 @@ Fixpoint module_in_domain (m : module) : bool :=
 
 Definition model_diff (c : c10case) : list N :=
   match c with
-  | C10Case m limit debug obs =>
+  | C10Case m limit debug obs _ =>
       cresult_diff (compile m {| o_recursion_limit := limit; o_debug := debug |}) obs
   end.
 
@@ -67,12 +69,19 @@ Definition model_diff (c : c10case) : list N :=
    2  = not well-formed for a reason outside the known classes;
    10 = (A-23) well-formed except that some string operand is complete and valid in `data` but longer
         than read_str's MAX_STR_LEN window;
-   11 = (A-24) some CloseUpvalue (emitted by scope_end) has no trace entry. *)
+   11 = (A-24) some CloseUpvalue (emitted by scope_end) has no trace entry.
+   The disassembler must list the same instruction starts as the decoder (part of code 2). *)
 Definition is_close_upvalue (i : instr) : bool := match i with ICloseUpvalue => true | _ => false end.
-Definition spec_codes (obs : cresult) : list N :=
+Definition disasm_ok (B : compiled) (disasm : option (list N)) : bool :=
+  match disasm, decode (p_bytecode B) with
+  | None, _ => true
+  | Some l, Some is => list_eqb N.eqb l (map (fun pi => N.of_nat (fst pi)) is)
+  | Some _, None => false
+  end.
+Definition spec_codes (obs : cresult) (disasm : option (list N)) : list N :=
   match obs with
   | COk B =>
-      if negb (wf_check_gen false B) then [2]
+      if negb (wf_check_gen false B) || negb (disasm_ok B disasm) then [2]
       else
         let u := untraced B in
         if existsb (fun pi => negb (is_close_upvalue (snd pi))) u then [2]
@@ -90,10 +99,10 @@ Proof. reflexivity. Qed.
 
 Definition check1 (c : c10case) : list N :=
   match c with
-  | C10Case m limit debug obs =>
+  | C10Case m limit debug obs disasm =>
       if negb (module_in_domain m) then [3]
       else
-        let sp := spec_codes obs in
+        let sp := spec_codes obs disasm in
         match model_diff c with
         | [] => sp
         | _ => 1 :: (if existsb (N.eqb 2) sp then [2] else [])
